@@ -2,6 +2,7 @@ import NeoFS.Generated.Consts
 import NeoFS.Generated.DeployFacts
 import NeoFS.Lemmas.DeployHelpers
 import NeoFS.Lemmas.NotaryBootstrapProgress
+import NeoFS.Model.DeployRoles
 /-! # C13 — committee-run deployment
 
 Property theorems only, in two parts:
@@ -464,6 +465,57 @@ theorem visible_role_nothing_sent (mp : Maps) (n maxInc : Nat) (env : Env) (s : 
 
 example : (rounds current 3 120 (fun _ => true) 7 6 (State.init 10)).chain.roleVisible = true := by decide
 example : (rounds current 3 120 (fun _ => true) 7 5 (State.init 10)).chain.roleVisible = false := by decide
+
+/-! ## the role stages re-enter correctly after a restart at any point -/
+
+/-- Regenerated from `deploy/deploy.go`, `notary.go`, `alphabet.go`: every pre-check of `checkCommitteeRoles`
+queries the role of the stage its flag lets `Deploy` skip, each stage's loop checks and designates its own
+role, and `initVoteForAlphabet` needs the NeoFSAlphabet role. -/
+theorem prechecks_query_their_own_role : DeployRoles.OwnRoles DeployRoles.current := by decide
+
+/-- Generic in the table: when every pre-check, loop and designation names its stage's own role, a run
+(re)started on a chain in ANY role state — fresh, Notary only (cancelled between the two stages), Alphabet
+only, both — gets through the role stages and `initVoteForAlphabet` with both roles designated. -/
+theorem restart_in_any_role_state (t : DeployRoles.Table) (ht : DeployRoles.OwnRoles t) (c : DeployRoles.Roles) :
+    DeployRoles.deployRoles t c = some ⟨true, true⟩ := by
+  obtain ⟨h1, h2, h3, h4, h5, h6, h7⟩ := ht
+  have g1 : (t.precheck.map (DeployRoles.read · c)).getD t.guardNotary false = c.notary := by
+    rw [List.getD_eq_getElem?_getD, List.getElem?_map]
+    rw [List.getD_eq_getElem?_getD] at h1
+    cases hx : t.precheck[t.guardNotary]? with
+    | none => rw [hx] at h1; simp at h1
+    | some r => rw [hx] at h1; simp at h1; subst h1; simp [DeployRoles.read]
+  have g2 : (t.precheck.map (DeployRoles.read · c)).getD t.guardAlphabet false = c.alphabet := by
+    rw [List.getD_eq_getElem?_getD, List.getElem?_map]
+    rw [List.getD_eq_getElem?_getD] at h4
+    cases hx : t.precheck[t.guardAlphabet]? with
+    | none => rw [hx] at h4; simp at h4
+    | some r => rw [hx] at h4; simp at h4; subst h4; simp [DeployRoles.read]
+  unfold DeployRoles.deployRoles
+  simp only [g1, g2, h2, h3, h5, h6, h7]
+  cases c with
+  | mk n a => cases n <;> cases a <;> decide
+
+/-- … in particular for the code under test. -/
+theorem role_stages_survive_restart (c : DeployRoles.Roles) :
+    DeployRoles.deployRoles DeployRoles.current c = some ⟨true, true⟩ :=
+  restart_in_any_role_state _ prechecks_query_their_own_role c
+
+/-- The copy-paste slip (the NeoFSAlphabet pre-check queries the P2PNotary role) is fatal exactly in the
+window "Notary designated, NeoFSAlphabet not yet": the run skips `designateNeoFSAlphabet` and fails in
+`initVoteForAlphabet`; in the three other role states nothing shows. -/
+theorem copy_pasted_precheck_fails_in_the_window :
+    DeployRoles.deployRoles { DeployRoles.current with precheck := ["P2PNotary", "P2PNotary"] } ⟨true, false⟩ = none ∧
+    ∀ c, c ≠ ⟨true, false⟩ →
+      DeployRoles.deployRoles { DeployRoles.current with precheck := ["P2PNotary", "P2PNotary"] } c = some ⟨true, true⟩ := by
+  refine ⟨by decide, ?_⟩
+  intro c hc
+  cases c with
+  | mk n a => cases n <;> cases a <;> first | decide | exact absurd rfl hc
+
+example : DeployRoles.deployRoles DeployRoles.current ⟨true, false⟩ = some ⟨true, true⟩ := by decide
+example : DeployRoles.deployRoles DeployRoles.current ⟨false, false⟩ = some ⟨true, true⟩ := by decide
+example : DeployRoles.deployRoles { DeployRoles.current with loopAlphabet := "P2PNotary" } ⟨true, false⟩ = none := by decide
 
 /-! ## a finding the model makes precise: the designation is sent at most once per process -/
 
